@@ -73,7 +73,7 @@ func digest(results []string, o obs) (d [16]byte) {
 		b = append(b, r...)
 		b = append(b, '|')
 	}
-	b = fmt.Appendf(b, "#%v|%s|%v|%d|%08x|%x|%x|%s|%s|%s|%s|%s", o.Exists, o.InstErr, o.Closed, o.MemPages, o.MemCRC, o.G0, o.G1, o.Table, o.Data, o.Elem, o.FDs, o.Peek)
+	b = fmt.Appendf(b, "#%v|%s|%v|%d|%08x|%x|%x|%s|%s|%s|%s|%s|%s", o.Exists, o.InstErr, o.Closed, o.MemPages, o.MemCRC, o.G0, o.G1, o.Table, o.Data, o.Elem, o.FDs, o.Peek, o.BadCall)
 	s := sha256.Sum256(b)
 	copy(d[:], s[:16])
 	return
@@ -375,7 +375,10 @@ func (e *explorer) explain(c cfg, word []step, r wordResult) *mismatch {
 		proj[s.I] = append(proj[s.I], s.Op)
 	}
 	if len(r.abs) > 0 {
-		return &mismatch{Inst: -1, Field: "absolute", Got: r.abs[0], Want: "(absolute oracle: no twin needed)", Culprit: lastOther(len(word)-1, -1)}
+		// the failing step is the instantiation (or the grow) of r.absAt[0].Inst during step r.absAt[0].Step; the culprit is
+		// the last step of another instance before it
+		at := r.absAt[0]
+		return &mismatch{Inst: at.Inst, Field: "absolute", Got: r.abs[0], Want: "(absolute oracle: no twin needed)", VictimOp: at.Kind, Culprit: lastOther(min(at.Step, len(word))-1, at.Inst)}
 	}
 	type lr struct {
 		res    []string
@@ -437,6 +440,9 @@ func (m *mismatch) signature(c cfg) string {
 	cul := m.Culprit
 	if cul == "" {
 		cul = "none(earlier-word-or-instantiation)"
+	}
+	if kind, _ := c.preParts(); kind != "" {
+		topo += "/runtime-prelude-" + kind
 	}
 	s := fmt.Sprintf("%s:%s:%s", c.Engine, topo, m.Field)
 	if m.VictimOp != "" {
@@ -594,8 +600,9 @@ func singleActor(word []step) bool {
 }
 
 type plan struct {
-	c     cfg
-	depth int
+	c        cfg
+	depth    int
+	oneWorld bool // the whole plan is ONE shard (one world): used for the many shallow runtime-prelude plans
 }
 
 // canonical merged words: among interchangeable instances (same module variant) the instances are named in
@@ -635,6 +642,9 @@ type shard struct {
 }
 
 func (p plan) prefixLen() int {
+	if p.oneWorld {
+		return 0
+	}
 	if p.depth <= 3 {
 		return min(1, p.depth)
 	}
@@ -755,7 +765,11 @@ func (e *explorer) runShard(p plan, sh shard, sampleIt bool) (st shardStats) {
 		history = append(history, append([]step{}, word...))
 	}
 	if sh.short {
-		p.each(nil, 0, p.prefixLen()-1, exec)
+		if p.oneWorld {
+			p.each(nil, 0, p.depth, exec)
+		} else {
+			p.each(nil, 0, p.prefixLen()-1, exec)
+		}
 		return
 	}
 	used := uint(0)
@@ -993,13 +1007,13 @@ func plans(thorough bool) []plan {
 		d, override = v, true
 	}
 	seen := map[string]bool{}
-	shape, capMax := 1, false
+	shape, capMax, pre := 1, false, ""
 	add := func(depth int, rt string, variants []int, policy string, shared bool) {
 		for _, eng := range []string{"compiler", "interpreter"} {
-			c := cfg{Engine: eng, RT: rt, Variants: variants, Policy: policy, Shared: shared, Shape: shape, CapMax: capMax}
+			c := cfg{Engine: eng, RT: rt, Variants: variants, Policy: policy, Shared: shared, Shape: shape, CapMax: capMax, Pre: pre}
 			if !seen[c.String()] {
 				seen[c.String()] = true
-				ps = append(ps, plan{c, depth})
+				ps = append(ps, plan{c: c, depth: depth, oneWorld: pre != "" && depth <= 2})
 			}
 		}
 	}
@@ -1010,7 +1024,7 @@ func plans(thorough bool) []plan {
 	for _, eng := range []string{"compiler", "interpreter"} {
 		c := cfg{Engine: eng, RT: "one", Variants: same2, Policy: "lazy", Shape: 1}
 		seen[c.String()] = true
-		primary = append(primary, plan{c, d})
+		primary = append(primary, plan{c: c, depth: d})
 	}
 	// secondary configurations, one level shallower
 	s := d - 1
@@ -1078,7 +1092,55 @@ func plans(thorough bool) []plan {
 	add(s, "one", diff2, "lazy", false)
 	add(s, "cache-mem", same2, "lazy", false)
 	capMax = false
-	return append(ps, primary...)
+	// RUNTIME PRELUDE (round 7): the runtimes of a world do not have the same history. Before a runtime meets WASI, env
+	// and the guest it compiled / instantiated / instantiated-and-closed an unrelated bystander module (X or Y, see
+	// guest.go), so whatever its store numbers or registers by first appearance (function type IDs, module list and
+	// names) differs from the other runtime's and from the lone reference's, which never has a prelude. Every
+	// assignment of {X, Y, none} to the runtimes in which they differ, every kind, every runtime mode, same and
+	// different guest modules, first instantiation in runtime 0 (lazy) and in runtime 1 (eager-rev); thorough adds
+	// eager. Shallow words (depth 2: every letter of one instance followed by every letter of the other, peek and
+	// badcall after each word) in one world per plan; thorough deepens the open-bystander plans of one / cache-mem /
+	// cache-dir2 to depth 3.
+	pd := 2
+	if override {
+		pd = max(2, d-2)
+	}
+	preKinds := []string{"compiled", "open", "closed"}
+	assign2 := []string{"X-", "Y-", "-X", "-Y", "XY", "YX"}
+	assign1 := []string{"X", "Y"}
+	prePlans := func(depth int, rts []string, kinds, policies []string) {
+		for _, rt := range rts {
+			as := assign2
+			if rt == "one" {
+				as = assign1
+			}
+			for _, kind := range kinds {
+				for _, a := range as {
+					pre = kind + ":" + a
+					for _, vs := range [][]int{same2, diff2} {
+						for _, pol := range policies {
+							add(depth, rt, vs, pol, false)
+						}
+					}
+				}
+			}
+		}
+		pre = ""
+	}
+	allRT := []string{"one", "separate", "cache-mem", "cache-dir", "cache-dir2"}
+	rest := ps
+	ps = nil
+	if thorough && !override {
+		prePlans(pd+1, []string{"one", "cache-mem", "cache-dir2"}, []string{"open"}, []string{"lazy"})
+		prePlans(pd, allRT, preKinds, []string{"lazy", "eager", "eager-rev"})
+	} else {
+		prePlans(pd, allRT, preKinds, []string{"lazy", "eager-rev"})
+	}
+	if os.Getenv("C11_ONLY") == "prelude" { // development knob: only the runtime-prelude plans
+		return ps
+	}
+	// the (many, cheap) prelude plans run first, the primary configuration last
+	return append(append(ps, rest...), primary...)
 }
 
 // neededLone returns the lone reference tables to build and, for each, the word length up to which it is needed.
